@@ -1,6 +1,6 @@
 """Data for MANIFEST.json (edit here, then run tools_manifest.py)."""
 
-PYVC_PROPS = ["C04", "C06", "C08", "C09", "C10", "C11", "C14", "C16"]
+PYVC_PROPS = ["C04", "C06", "C08", "C09", "C10", "C11", "C12", "C14", "C16"]
 BOUNDED_PROPS: list[str] = ["C04", "C06", "C09", "C14", "C10", "C11", "C12", "C15"]
 
 
@@ -113,7 +113,11 @@ CHECKS += [
     bchk("C12", "BOUNDED (never counted as proved). Contract of stream_data over the abstract view: each workflow name once, under it each stored trace "
          "once (restricted by the optional filter), each trace's spans == its nodes rows with child links == its association rows; traces longer than / "
          "equal to / shorter than the batch size and off batch boundaries, interleaved ingestion order.",
-         "Bounded exploration on real sqlite; the nested lazy generators are consumed in the order the real consumers use.", "DESIGN.md 4/C12"),
+         "Bounded exploration on real sqlite; the nested lazy generators are consumed in the order the real consumers use. Additionally PROVED for all "
+         "inputs (contracts/c12.py, 10 clauses): node_to_otel_event copies every stored field and gives exactly the ids of node.children as child ids; "
+         "job_ids_to_eventid_to_otelevent_map yields one id->span map per trace whose parent links resolve, in order, holding every span of the trace "
+         "(a trace with a missing parent is skipped, nothing else is). The SQL row stream and the two-level lazy groupby are NOT under contract.",
+         "DESIGN.md 4/C12"),
     bchk("C14", "BOUNDED (never counted as proved). Through the real entry point otel_to_puml: otel2puml on a data set versus otel2pv with saved events "
          "followed by pv2puml on the saved files, with the default and with a fully renamed field mapping, sync and async: the saved PV files hold exactly "
          "the events, links and field values of the in-memory stream (under the renamed keys), loading inverts saving, and the models learned on the two "
